@@ -2,6 +2,7 @@ package main
 
 import (
 	"fmt"
+	"go/token"
 	"sort"
 	"strings"
 
@@ -18,6 +19,7 @@ func init() {
 		ruleF3(c, "C09.A3b")
 		ruleA4(c, "C09.A4")
 		ruleA5(c, "C09.A5")
+		ruleW2(c, "C09.A6")
 	}
 }
 
@@ -122,7 +124,49 @@ func ruleA2(c *Ctx, id string) {
 		return
 	}
 	for _, rel := range rels {
-		R.Check(MustBefore(f, inv)(rel), id, "fstxn.Abort|cached inodes dropped before release", P.Pos(rel.Pos()), "on every path of Abort the cached objects of the held inodes are invalidated (cache slot Obj = nil) before their locks are released", "invalidation precedes releaseInodes", "Abort only releases locks and returns allocations: the inode cache keeps the aborted transaction's mutations (e.g. a RENAME that fails in AddName has already removed the source name from the cached directory), so the failed operation stays visible to later requests")
+		if MustBefore(f, inv)(rel) {
+			R.PassNT(id, "fstxn.Abort|cached inodes dropped before release", P.Pos(rel.Pos()), "on every path of Abort the cached objects of the held inodes are invalidated (cache slot Obj = nil) before their locks are released", "invalidation precedes releaseInodes unconditionally")
+			continue
+		}
+		// conditional drop: a path may skip the invalidation only when the
+		// transaction has neither a dirty buffer nor an allocation.  Given C10.W1
+		// (every in-place store to a cached inode is followed by WriteInode, which
+		// dirties a buffer, except on allocation-failure paths, which allocated),
+		// such a transaction cannot have modified a cached inode.
+		invBlocks := map[*ssa.BasicBlock]bool{}
+		for _, b := range f.Blocks {
+			for _, in := range b.Instrs {
+				if inv(in) {
+					invBlocks[b] = true
+				}
+			}
+		}
+		through := func(from, to *ssa.BasicBlock) bool { return invBlocks[to] }
+		zeroEdge := func(method string) func(from, to *ssa.BasicBlock) bool {
+			return condEdge(f, func(cd Cond) (bool, bool) {
+				if cd.X == nil || cd.Y == nil {
+					return false, false
+				}
+				cl, ok := stripConv(cd.X).(*ssa.Call)
+				if !ok || cl.Call.StaticCallee() == nil || cl.Call.StaticCallee().Name() != method {
+					return false, false
+				}
+				k, isk := constInt(cd.Y)
+				if !isk || k != 0 {
+					return false, false
+				}
+				switch cd.Op {
+				case token.GTR, token.NEQ:
+					return true, false
+				case token.EQL, token.LEQ:
+					return true, true
+				}
+				return false, false
+			})
+		}
+		okDirty := everyPathTakes(f, rel.Block(), through, zeroEdge("NDirty"))
+		okAlloc := everyPathTakes(f, rel.Block(), through, zeroEdge("NAllocated"))
+		R.Check(okDirty && okAlloc, id, "fstxn.Abort|cached inodes dropped before release", P.Pos(rel.Pos()), "every path of Abort invalidates the cached objects of the held inodes before releasing their locks, except paths on which the transaction has no dirty buffer AND no allocation (it cannot have modified a cached inode, by C10.W1)", "skip paths take both the NDirty()==0 and the NAllocated()==0 edge", fmt.Sprintf("a path releases the locks without invalidation although the transaction may have modified cached inodes (skips only under: no dirty buffer=%v, no allocation=%v): the inode cache keeps the aborted transaction's mutations (e.g. a RENAME that fails in AddName has already removed the source name from the cached directory; a WRITE that fails after allocating an indirect root keeps the pointer to the block PostAbort gives back)", okDirty, okAlloc))
 	}
 	// the invalidation must cover every held inode: it ranges over op.inodes
 	okLoop := false
